@@ -1,17 +1,30 @@
 #!/usr/bin/env python3
-"""usage: tools/ingest_mutants.py C01 [extra props...]  -- evaluates /tmp/mutants/C01/_mutants/* with eval_mutant.py and keeps the
-confirmed ones as seeded/C01-<k>/ (patch.diff, demo.py, meta.json incl. what was run and which checks caught it)."""
+"""usage: tools/ingest_mutants.py C01 [extra props...] [--src DIR] [--offset K] [--scratch] [--round R]
+evaluates DIR/<k>/ (default /tmp/mutants/C01/_mutants/*) with eval_mutant.py and keeps the confirmed ones as
+seeded/C01-<k+offset>/ (patch.diff, demo.py, meta.json incl. what was run and which checks caught it)."""
 import json, os, shutil, subprocess, sys
 VERIF = os.path.dirname(os.path.dirname(os.path.abspath(__file__)))
-prop = sys.argv[1]
-extra = sys.argv[2:]
-src = f"/tmp/mutants/{prop}/_mutants"
+argv = sys.argv[1:]
+def opt(name, default=None, flag=False):
+    if name in argv:
+        i = argv.index(name)
+        if flag:
+            argv.pop(i); return True
+        v = argv[i + 1]; del argv[i:i + 2]; return v
+    return default
+scratch = opt("--scratch", False, flag=True)
+offset = int(opt("--offset", "0"))
+rnd = int(opt("--round", "1"))
+src0 = opt("--src")
+prop = argv[0]
+extra = argv[1:]
+src = src0 or f"/tmp/mutants/{prop}/_mutants"
 for k in sorted(os.listdir(src)):
     d = os.path.join(src, k)
     if not os.path.exists(os.path.join(d, "patch.diff")):
         continue
     props = [prop] + extra
-    p = subprocess.run(["/venv/bin/python", os.path.join(VERIF, "tools", "eval_mutant.py"), d, "--props", ",".join(props), "--seeds", "0,1"],
+    p = subprocess.run(["/venv/bin/python", os.path.join(VERIF, "tools", "eval_mutant.py"), d, "--props", ",".join(props), "--seeds", "0,1"] + (["--scratch"] if scratch else []),
                        capture_output=True, text=True)
     try:
         o = json.loads(p.stdout.strip().split("\n")[-1])
@@ -25,16 +38,18 @@ for k in sorted(os.listdir(src)):
             print("   ", pp, r["tier"], "seed", r["seed"], "rc", r["rc"], f"{r['wall']}s", r["lines"][:1])
     if not o.get("valid_mutant"):
         continue
-    dst = os.path.join(VERIF, "seeded", f"{prop}-{k}")
+    kk = str(int(k) + offset) if k.isdigit() else k
+    dst = os.path.join(VERIF, "seeded", f"{prop}-{kk}")
     os.makedirs(dst, exist_ok=True)
     shutil.copy(os.path.join(d, "patch.diff"), dst)
     shutil.copy(os.path.join(d, "demo.py"), dst)
     meta = json.load(open(os.path.join(d, "meta.json"))) if os.path.exists(os.path.join(d, "meta.json")) else {}
-    meta_out = {"property": prop, "summary": meta.get("summary"), "needs": meta.get("needs"), "files_touched": meta.get("files_touched"),
+    meta_out = {"property": prop, "summary": meta.get("summary"), "needs": meta.get("needs"), "files_touched": meta.get("files_touched") or meta.get("files"), "round": rnd,
                 "author": "independent sub-agent given only the property text and a scratch worktree of /repo",
                 "confirmed": {"demo_on_clean_tree_rc": o["demo_clean_rc"], "demo_on_patched_tree_rc": o["demo_patched_rc"],
                               "unit_suite_passed_with_patch": o["suite_passed"], "unit_suite_failed_with_patch": o["suite_failed"],
-                              "how": "tools/eval_mutant.py: git -C /repo apply patch.diff; pytest tests/unit; demo.py; ./check <prop>; git -C /repo checkout -- ."},
+                              "how": ("tools/eval_mutant.py --scratch: scratch worktree of /repo HEAD; git apply patch.diff there; pytest tests/unit; demo.py; ./check <prop> with VERIF_REPO=<worktree>; worktree removed" if scratch else
+                                      "tools/eval_mutant.py: git -C /repo apply patch.diff; pytest tests/unit; demo.py; ./check <prop>; git -C /repo checkout -- .")},
                 "checks": {pp: [{"tier": r["tier"], "seed": r["seed"], "exit": r["rc"], "wall_s": r["wall"], "first_line": (r["lines"] or [""])[0]} for r in rs]
                            for pp, rs in o["checks"].items()},
                 "caught_by_quick": o["caught_quick"], "caught_by_any_tier": o["caught_any"]}
